@@ -1969,6 +1969,102 @@ class Canon:
                 out += new
         return out
 
+    def thread_sentinels(self, stmts, module):
+        """try: x = E  except Exc: x = S      followed by      if x is S: A else: B
+        with S a private module-level sentinel `S = object()` (only this module can name it, E does not): which branch of the `if`
+        runs is decided by how the try ended, so  try: x = E  except Exc: A  else: B.   Same for `if c: x = E else: x = S`."""
+        sentinels = {n for n, v in module.assigns.items() if n.startswith("_") and isinstance(v, ast.Call) and u(v.func) == "object" and not v.args and not v.keywords}
+        if not sentinels:
+            return stmts
+
+        def last_assign(block):
+            """(name, value) assigned by the last statement of a block that falls through"""
+            if not block:
+                return None
+            st = block[-1]
+            if isinstance(st, ast.Assign) and len(st.targets) == 1 and isinstance(st.targets[0], ast.Name):
+                return st.targets[0].id, st.value
+            return None
+
+        def mentions(e, names):
+            return any(isinstance(n, ast.Name) and n.id in names for n in ast.walk(e))
+
+        def block(b):
+            b = list(b)
+            for s_ in b:
+                _recurse_blocks(s_, block)
+                if isinstance(s_, ast.Try):
+                    for h in s_.handlers:
+                        h.body = block(h.body)
+            out = []
+            i = 0
+            while i < len(b):
+                s1 = b[i]
+                s2 = b[i + 1] if i + 1 < len(b) else None
+                done = False
+                if isinstance(s2, ast.If) and isinstance(s2.test, ast.Compare) and len(s2.test.ops) == 1 and isinstance(s2.test.ops[0], (ast.Is, ast.IsNot)) \
+                        and isinstance(s2.test.left, ast.Name) and isinstance(s2.test.comparators[0], ast.Name) and s2.test.comparators[0].id in sentinels:
+                    x, S = s2.test.left.id, s2.test.comparators[0].id
+                    is_s, not_s = (s2.body, s2.orelse) if isinstance(s2.test.ops[0], ast.Is) else (s2.orelse, s2.body)
+                    arms = None
+                    if isinstance(s1, ast.Try) and not s1.finalbody and not s1.orelse and s1.handlers:
+                        arms = [s1.body] + [h.body for h in s1.handlers]
+                    elif isinstance(s1, ast.If) and s1.orelse:
+                        arms = [s1.body, s1.orelse]
+                    if arms is not None:
+                        kinds = []
+                        for a in arms:
+                            if _terminates(a):
+                                kinds.append("end")
+                                continue
+                            la = last_assign(a)
+                            if la is None or la[0] != x:
+                                kinds = None
+                                break
+                            if isinstance(la[1], ast.Name) and la[1].id == S:
+                                kinds.append("S")
+                            elif not mentions(la[1], sentinels):
+                                kinds.append("V")
+                            else:
+                                kinds = None
+                                break
+                        if kinds and "S" in kinds and "V" in kinds:
+                            def cont(k):
+                                c_ = copy.deepcopy(is_s if k == "S" else not_s) or []
+                                if k == "S":
+                                    # (the local is the sentinel there: reads of it name the sentinel, its assignment is dropped)
+                                    c_ = [norm._Subst({x: ast.Name(id=S, ctx=ast.Load())}).visit(y) for y in c_]
+                                return c_
+                            if isinstance(s1, ast.Try):
+                                if kinds[0] == "V" and all(k in ("S", "end") for k in kinds[1:]):
+                                    for h, k in zip(s1.handlers, kinds[1:]):
+                                        if k == "S":
+                                            h.body = h.body[:-1] + cont("S")
+                                    s1.orelse = cont("V") or [ast.copy_location(ast.Pass(), s1)]
+                                    done = True
+                            else:
+                                s1.body = s1.body + (cont(kinds[0]) if kinds[0] != "end" else [])
+                                s1.orelse = s1.orelse + (cont(kinds[1]) if kinds[1] != "end" else [])
+                                done = True
+                if done:
+                    ast.fix_missing_locations(s1)
+                    out.append(s1)
+                    i += 2
+                    continue
+                out.append(s1)
+                i += 1
+            # try .. except: <terminates> else: REST   ==   try .. except: <terminates> ; REST     (canonical: after the try)
+            flat = []
+            for s_ in out:
+                if isinstance(s_, ast.Try) and s_.orelse and not s_.finalbody and s_.handlers and all(_terminates(h.body) for h in s_.handlers):
+                    rest, s_.orelse = s_.orelse, []
+                    flat.append(s_)
+                    flat += [x_ for x_ in rest if not isinstance(x_, ast.Pass)]
+                else:
+                    flat.append(s_)
+            return flat
+        return block(stmts)
+
     def fold_enum_tests(self, stmts, module):
         """E.A == E.B between two members of one Enum class of the program (distinct literal values) is a constant; an `if` /
         conditional expression on a constant keeps the branch taken"""
@@ -2425,6 +2521,7 @@ class Canon:
         b = norm.unroll_literal_loops(b)
         b = norm.map_pushdown(norm.extend_to_augassign(b), pure_calls=_PURE_EXT)
         b = norm.fold_none_tests(b)             # `if count is not None` on a count a helper just computed
+        b = self.thread_sentinels(b, module)
         b = self.fold_enum_tests(b, module)
         b = self.call_layout(b, module, cls)
         b = polarity(b)
